@@ -56,8 +56,9 @@ def load(mm, text):
 
 class Prop(Check):
     ID = "C19"
-    LEAN_MODULE = "TextxVerif.Peg.Arp"
-    THEOREMS = []  # filled below when the module exists
+    LEAN_MODULE = "TextxVerif.Props.C19"
+    THEOREMS = ["Peg.C19_posdet", "Peg.C19_partial", "Peg.C19_partial_agree", "Peg.C19_partial_accept",
+                "Peg.C19_full_false", "Peg.parse_le", "Peg.plain_sim", "Peg.memo_sim"]
     DRIVER = "Drivers/Peg.lean"
     QUICK_CASES = 250
     CASE_TIMEOUT = 20
@@ -74,7 +75,7 @@ class Prop(Check):
     def gen(self, rng, n, tier):
         for i in range(n):
             r = rng.fork(i)
-            gg = G.GrammarGen(r, links=False)
+            gg = G.GrammarGen(r, links=False, composite_comment=True)
             g = gg.grammar()
             cfg = r.choice(CFGS)
             texts = G.sentences(g, r, 3, 2)
@@ -115,6 +116,9 @@ class Prop(Check):
                 d["parse1ctx"] = peg.real_parse(q2, t, objs1)
                 for o_ in objs1:
                     o_._result_cache = {}
+                # ... and the disagreement must be reproducible from a clean cache state (not a stale-cache effect)
+                q3 = mm1._parser_blueprint.clone()
+                d["parse1fresh"] = with_timeout(lambda: peg.real_parse(q3, t, objs1))
             res["texts"].append(d)
         return res
 
@@ -166,7 +170,8 @@ class Prop(Check):
         if "texts" not in obs:
             return None
         bad = [d for d in obs["texts"] if d["load0"] != d["load1"] or d["parse0"] != d["parse1"]]
-        if bad and all(d.get("parse1ctx") == d["parse0"] for d in bad):
+        if bad and all(d["parse0"] != d["parse1"] and d.get("parse1ctx") == d["parse0"]
+                       and d.get("parse1fresh") == d["parse1"] for d in bad):
             return "C19-memo-key-ignores-ws-context"
         return None
 
